@@ -60,7 +60,7 @@ func c01Oracle(pc progCase, r *Result) {
 	r.Distinct(o.Key())
 	r.Sample(pc.P.Text)
 	if class, detail := compareRef(ref, o, true); class != "" {
-		r.Fail(class, pc.Tags, pc.P.Text, detail)
+		r.Fail(class, append(append([]string{}, pc.Tags...), ref.Feat...), pc.P.Text, detail)
 	}
 }
 
